@@ -1296,7 +1296,7 @@ class VG:
         if short == 'into_iter':
             if isinstance(it, tuple) and it and it[0] == 'ref':
                 return ('iter', self.read_place(it[1]))
-            if isinstance(it, tuple) and it and it[0] in ('range', 'iter', 'iter_mut', 'enumerate', 'take', 'skip', 'rev', 'copied', 'zip', 'step_by'):
+            if isinstance(it, tuple) and it and it[0] in ('range', 'iter', 'iter_mut', 'enumerate', 'take', 'skip', 'rev', 'copied', 'zip', 'step_by', 'map'):
                 return it
             return ('iter', d(it))
         if short in ('enumerate', 'copied', 'cloned', 'rev', 'peekable', 'by_ref'):
@@ -1326,11 +1326,52 @@ class VG:
             red = ('reduce', kind, seq if seq is not None else it)
             byref = not _iter_copied(it)
             return phi(nonempty, some(red), NONE)
-        if short in ('sum', 'product', 'count', 'fold', 'max', 'min', 'last', 'nth', 'next', 'map', 'filter', 'collect', 'for_each',
+        if short == 'map':
+            return ('map', it, argv[1])
+        if short in ('sum', 'product', 'fold', 'for_each'):
+            # synthesise a fold over the iterator: acc' = acc (+|*) item, or closure(acc, item)
+            base = it
+            maps = []
+            while isinstance(base, tuple) and base and base[0] == 'map':
+                maps.append(base[2])
+                base = base[1]
+            if isinstance(base, tuple) and base and base[0] in ('iter', 'range', 'enumerate', 'take', 'skip', 'copied'):
+                self.nloops += 1
+                L = 'L%d' % self.nloops
+                key = ('local', 'acc%d' % self.nloops)
+                item, hyps = self.iter_model(base, L)
+                info = {'iter': base, 'node': e, 'carried': {}, 'outer': tuple(self.loop_stack), 'hyps': hyps}
+                self.loops[L] = info
+                saved_pc = list(self.pc)
+                self.pc.append(('inloop', L))
+                self.loop_stack.append(L)
+                item = self.deref(item) if not (isinstance(item, tuple) and item and item[0] == 'tuple') else item
+                ok = True
+                for cl in reversed(maps):
+                    if isinstance(cl, tuple) and cl[0] == 'closure':
+                        item = self.apply_closure(cl, [item], fr)
+                    else:
+                        ok = False
+                mu = ('mu', L, key)
+                if short == 'sum':
+                    init, nxt = lit(0.0), op('add', mu, self.deref(item))
+                elif short == 'product':
+                    init, nxt = lit(1.0), op('mul', mu, self.deref(item))
+                elif short == 'fold' and len(argv) == 3 and isinstance(argv[2], tuple) and argv[2][0] == 'closure':
+                    init = d(argv[1])
+                    nxt = self.apply_closure(argv[2], [mu, item], fr)
+                else:
+                    ok = False
+                    init = nxt = unk('iter-' + short)
+                self.loop_stack.pop()
+                self.pc = saved_pc
+                if ok:
+                    info['carried'][key] = (init, nxt)
+                    return ('fold', L, key, init, nxt)
+            return self.note_unknown('iter-' + short, e)
+        if short in ('count', 'max', 'min', 'last', 'nth', 'next', 'filter', 'collect',
                      'any', 'all', 'position', 'find', 'rposition', 'min_by_key', 'max_by_key', 'reduce', 'scan', 'windows'):
             seq = _iter_seq(it)
-            if short == 'sum' and seq is not None and it[0] in ('iter', 'copied'):
-                return ('reduce', 'sum', seq)
             if short == 'count' and seq is not None and it[0] in ('iter', 'copied'):
                 return ('len', seq)
             return self.note_unknown('iter-' + short, e)
